@@ -2733,4 +2733,149 @@ theorem layoutSegment_empty (c : Cls) (hdrPhoff : BitVec 64) (phentsize phnum : 
   rw [this]
   cases c <;> rfl
 
+/-! ### the saved segments of a flat object on the writer domain -/
+
+theorem segDom_weaken (cov ins : Bool) (c : Cls) (hdrPhoff : BitVec 64) (phentsize phnum : BitVec 16)
+    (lay : Layout) (g : Seg) (h : segDom cov ins c hdrPhoff phentsize phnum lay g = true) :
+    segDom false false c hdrPhoff phentsize phnum lay g = true := by
+  unfold segDom at h ⊢
+  cases hfg : segFirstGen lay g with
+  | error e => rfl
+  | ok fg =>
+    rw [hfg] at h
+    simp only at h ⊢
+    cases hin : segInit c hdrPhoff phentsize phnum lay g fg with
+    | error e => rfl
+    | ok r =>
+      rw [hin] at h
+      simp only [Bool.and_eq_true] at h ⊢
+      exact ⟨⟨⟨h.1.1.1, rfl⟩, rfl⟩, h.2⟩
+
+/-- Writer-domain conditions at every turn of pass 2, for *flat* objects: `segDom cov ins`, no
+    member is generated before its step (`segFlat`), and a segment with members starts a fresh run
+    (`segFreshB`: neither the PHDR nor the offset-0 special case). -/
+def layoutDomB (cov ins : Bool) (o : Obj) (h : Bytes) : Bool :=
+  match layoutOf o h with
+  | .ok (some res) =>
+    segsAllB (fun lay g =>
+        segDom cov ins o.cls (Hdr.e_phoff o.cls o.enc res.hdr0) (Hdr.e_phentsize o.cls o.enc res.hdr0)
+          (Hdr.e_phnum o.cls o.enc res.hdr0) lay g &&
+        segFlat o.cls (Hdr.e_phoff o.cls o.enc res.hdr0) (Hdr.e_phentsize o.cls o.enc res.hdr0)
+          (Hdr.e_phnum o.cls o.enc res.hdr0) lay g &&
+        (g.secs.isEmpty || segFreshB lay g))
+      o.cls (Hdr.e_phoff o.cls o.enc res.hdr0) (Hdr.e_phentsize o.cls o.enc res.hdr0)
+      (Hdr.e_phnum o.cls o.enc res.hdr0) res.ordered (lay0Of o res.pos0)
+  | _ => true
+
+theorem withoutSegment_false_of_mem (segs : List Seg) (g : Seg) (hg : g ∈ segs) (idx : BitVec 16)
+    (hi : idx ∈ g.secs) : withoutSegment segs idx.toNat = false := by
+  simp only [withoutSegment, Bool.not_eq_false', List.any_eq_true, beq_iff_eq]
+  exact ⟨g, hg, idx, hi, rfl⟩
+
+/-- the section a turn left at position `k` is the final one, if `k` was generated by then and is a
+    member of some final segment (or simply: not re-placed by pass 3) -/
+theorem final_of_turn (o : Obj) (h : Bytes) (res : LayoutRes) (hl : layoutOf o h = .ok (some res))
+    (hnw : layoutNW o h = true) (t : SegTurn) (hstep : LayStep t.lay' res.lay2)
+    (k : Nat) (s : SecBuf) (hk : res.secs[k]? = some s) (hw : withoutSegment res.segs k = false)
+    (hg : t.lay'.Gen k) : t.lay'.secs[k]? = some s := by
+  obtain ⟨s2, hs2, -, hsame, -⟩ := layout_final_desc o h res hl hnw k s hk
+  have := hsame hw; subst this
+  have hlt : k < t.lay'.secs.length := by
+    rw [← hstep.len]
+    rcases Nat.lt_or_ge k res.lay2.secs.length with h' | h'
+    · exact h'
+    · rw [List.getElem?_eq_none h'] at hs2; exact nomatch hs2
+  have h1 : t.lay'.secs[k]? = some t.lay'.secs[k] := List.getElem?_eq_getElem hlt
+  have := hstep.frame k _ hg h1
+  rw [hs2] at this; rw [h1, this]
+
+theorem final_segments (cov ins : Bool) (o : Obj) (h : Bytes) (res : LayoutRes)
+    (hl : layoutOf o h = .ok (some res)) (hnw : layoutNW o h = true) (hn : o.secs.length < 65536)
+    (h0 : ∀ (i : Nat) (s : SecBuf), o.secs[i]? = some s → s.Occ → s.index ≠ 0)
+    (hnd : (o.segs.map (·.index)).Nodup) (hdom : layoutDomB cov ins o h = true)
+    (g' : Seg) (hg : g' ∈ res.segs) :
+    g'.filesz.toNat ≤ g'.memsz.toNat ∧
+    (g'.secs ≠ [] → g'.align.toNat ≤ 9223372036854775808 →
+      g'.offset.toNat % (max g'.align.toNat 1) = g'.vaddr.toNat % (max g'.align.toNat 1)) ∧
+    (∀ idx ∈ g'.secs, ∀ (s : SecBuf), res.secs[idx.toNat]? = some s →
+      (s.Occ → s.offset - g'.offset = s.addr - g'.vaddr) ∧
+      (ins = true → s.Occ → g'.offset.toNat ≤ s.offset.toNat ∧ s.endN ≤ g'.offset.toNat + g'.filesz.toNat) ∧
+      (cov = true → s.stype ≠ BitVec.ofNat 32 SHT_NULL →
+        (s.addr - g'.vaddr).toNat + s.size.toNat ≤ g'.memsz.toNat)) ∧
+    -- the section that contains the first file byte of the segment is one of its equidistant members
+    (0 < g'.filesz.toNat → lseg_is_phdr g'.stype (BitVec.ofNat 16 g'.secs.length) = false →
+      ∀ (k : Nat) (s : SecBuf), res.secs[k]? = some s → s.Occ →
+        s.offset.toNat ≤ g'.offset.toNat → g'.offset.toNat < s.endN →
+        s.offset - g'.offset = s.addr - g'.vaddr) := by
+  obtain ⟨t, ht, rfl⟩ := final_segs_turn o h res hl hnw hn h0 hnd g' hg
+  obtain ⟨-, -, e3⟩ := layoutOf_trace o h res hl hnw hn h0
+  obtain ⟨f1, f2, f3, f4, f5, f6⟩ := e3 t ht
+  unfold layoutDomB at hdom
+  rw [hl] at hdom
+  simp only at hdom
+  have hturn := segsAllB_trace _ _ _ _ _ _ _ hdom t ht
+  simp only [Bool.and_eq_true, Bool.or_eq_true] at hturn
+  obtain ⟨⟨hsd, hfl⟩, hfe⟩ := hturn
+  obtain ⟨hmarks, hsecs, -, -, hty, hal⟩ := layoutSegment_marks _ _ _ _ _ _ _ _ _ f3 f2 f1
+  have dom := layoutSegment_dom cov ins _ _ _ _ t.lay t.lay' t.g t.g' _ f3 f2 hsd f1
+  obtain ⟨-, hstepT⟩ := layoutSegment_inv _ _ _ _ t.lay t.lay' t.g t.g' _ f3 f2 f1
+  have hfresh : t.g.secs ≠ [] → segFresh t.lay t.g := by
+    intro hne
+    rcases hfe with he | hf
+    · simp only [List.isEmpty_iff] at he; exact absurd he hne
+    · exact segFresh_of_B _ _ hf
+  have hflat := fun hne => layoutSegment_flat _ _ _ _ t.lay t.lay' t.g t.g' _ f3 f2
+    (segDom_weaken _ _ _ _ _ _ _ _ hsd) hfl (hfresh hne) f1
+  refine ⟨dom.1, ?_, ?_, ?_⟩
+  · intro hne hal'
+    rw [hsecs] at hne; rw [hal] at hal'
+    exact (dom.2.2 (hfresh hne)).1 hal'
+  · intro idx hidx s hs
+    rw [hsecs] at hidx
+    have hne : t.g.secs ≠ [] := fun e => by rw [e] at hidx; exact nomatch hidx
+    have hng : ¬ t.lay.Gen idx.toNat := (hflat hne).2.2 idx hidx
+    have hgen : t.lay'.Gen idx.toNat := hmarks idx hidx
+    have hw := withoutSegment_false_of_mem res.segs t.g' hg idx (by rw [hsecs]; exact hidx)
+    have hs' := final_of_turn o h res hl hnw t f5 idx.toNat s hs hw hgen
+    refine ⟨fun ho => dom.2.1 _ s hng hgen hs' ho, ?_, ?_⟩
+    · intro hi ho; exact (dom.2.2 (hfresh hne)).2.2 hi _ s hng hgen hs' ho
+    · intro hc hnn; exact (dom.2.2 (hfresh hne)).2.1 hc _ s hng hgen hs' hnn
+  · intro hfs hph k s hk ho h1 h2
+    have hne : t.g.secs ≠ [] := by
+      intro e
+      have := layoutSegment_empty _ _ _ _ t.lay t.lay' t.g t.g' e (by rw [← hsecs, ← hty]; exact hph) f1
+      rw [this] at hfs; exact absurd hfs (by decide)
+    obtain ⟨hA, hB, -⟩ := hflat hne
+    obtain ⟨hP, -, -, -⟩ := layout_packed o h res hl hnw hn h0
+    obtain ⟨s2, hs2, hm2, hsame, hloose⟩ := layout_final_desc o h res hl hnw k s hk
+    cases hw : withoutSegment res.segs k with
+    | true =>
+      have hi : s2.index ≠ 0 := by rw [← hm2.index]; exact hP.nz k s hk ho
+      have := hloose hw hi
+      have := f5.mono
+      omega
+    | false =>
+      have := hsame hw; subst this
+      by_cases hgA : t.lay.Gen k
+      · -- generated before the turn: ends before the segment starts
+        have hlt : k < t.lay.secs.length := by
+          rw [← hstepT.len, ← f5.len]
+          rcases Nat.lt_or_ge k res.lay2.secs.length with h' | h'
+          · exact h'
+          · rw [List.getElem?_eq_none h'] at hs2; exact nomatch hs2
+        have hsa : t.lay.secs[k]? = some t.lay.secs[k] := List.getElem?_eq_getElem hlt
+        have h3 := f5.frame k _ (hstepT.genMono k hgA) (hstepT.frame k _ hgA hsa)
+        rw [hs2] at h3; simp only [Option.some.injEq] at h3
+        have := f3.packed.inR k _ hsa hgA (by rw [← h3]; exact ho)
+        rw [← h3] at this
+        omega
+      · by_cases hgB : t.lay'.Gen k
+        · exact dom.2.1 k s hgA hgB (final_of_turn o h res hl hnw t f5 k s hk hw hgB) ho
+        · have hg2 : res.lay2.Gen k := by
+            rcases placed_all o h res hl hnw hn h0 k with hg2 | hg2
+            · exact hg2
+            · rw [hw] at hg2; exact nomatch hg2
+          have := f5.fresh k s hgB hg2 hs2 ho
+          omega
+
 end ElfioVerif
